@@ -501,10 +501,10 @@ type iccTag struct {
 
 type iccDesc struct {
 	header  [128]byte
-	tags    []iccTag // in table order
-	layout  []int    // order in which tag data blocks are laid out (indices into tags)
+	tags    []iccTag    // in table order
+	layout  []int       // order in which tag data blocks are laid out (indices into tags)
 	share   map[int]int // tag i shares the data block of tag j (same offset/size)
-	padding []int    // bytes of padding after each laid-out block
+	padding []int       // bytes of padding after each laid-out block
 }
 
 func iccHeader(r *rng) [128]byte {
@@ -689,6 +689,19 @@ func randText(r *rng, n int) []uint16 {
 			runes = append(runes, rune(0x4e00+r.intn(0x5000)))
 		default:
 			runes = append(runes, rune(0x10000+r.intn(0xfffff)))
+		}
+	}
+	// code points a decoder may be tempted to treat specially (byte order mark / zero width no-break space, its
+	// byte-swapped twin, the replacement character, invisible formatting characters): first, last or in the middle
+	if len(runes) > 0 && r.intn(5) == 0 {
+		sp := []rune{0xfeff, 0xfffe, 0xfffd, 0x200b, 0x00ad, 0xfeff}[r.intn(6)]
+		switch r.intn(3) {
+		case 0:
+			runes[0] = sp
+		case 1:
+			runes[len(runes)-1] = sp
+		default:
+			runes[r.intn(len(runes))] = sp
 		}
 	}
 	return utf16.Encode(runes)
